@@ -23,3 +23,15 @@ def f2_get_next_raises_at_zzz() -> bool:
             return True
     finally:
         shutil.rmtree(d, ignore_errors=True)
+
+
+def f5_broken_page_not_flagged() -> bool:
+    from zorg.service.compiler import walk_zorg_page
+
+    d = _tmp()
+    try:
+        (d / "p.zo").write_text("#")
+        page = walk_zorg_page(d, Path("p.zo"))
+        return not page.has_errors
+    finally:
+        shutil.rmtree(d, ignore_errors=True)
